@@ -289,4 +289,29 @@ theorem numberByPosition_spec (areas : List (Int × Loc)) (rd : RegionData) (L :
       have := congrArg (·.2.2) hje'
       simpa [positionKey_number] using this
 
+/-! ### the region's dictionaries have distinct keys -/
+
+theorem foldl_dictSet_nodup {α β} (key : β → Int) (val : β → α) : ∀ (xs : List β) (d : List (Int × α)),
+    (d.map (·.1)).Nodup → ((xs.foldl (fun d x => dictSet d (key x) (val x)) d).map (·.1)).Nodup
+  | [], d, h => h
+  | x :: xs, d, h => foldl_dictSet_nodup key val xs _ (dictSet_nodup d (key x) (val x) h)
+
+theorem candDict_nodup (rd : RegionData) : ((candDict rd).map (·.1)).Nodup :=
+  foldl_dictSet_nodup (fun c : CandArea => c.number) (fun c => c.loc) rd.cands [] List.nodup_nil
+
+theorem subDict_nodup (rd : RegionData) : ((subDict rd).map (·.1)).Nodup :=
+  foldl_dictSet_nodup (fun c : Area => c.number) (fun c => c.loc) rd.subs [] List.nodup_nil
+
+theorem protoDict_nodup (rd : RegionData) : ((protoDict rd).map (·.1)).Nodup := by
+  unfold protoDict
+  have : ∀ (cs : List CandArea) (d : List (Int × ProtoArea)), (d.map (·.1)).Nodup →
+      ((cs.foldl (fun d c => c.protos.foldl (fun d p => dictSet d p.number p) d) d).map (·.1)).Nodup := by
+    intro cs
+    induction cs with
+    | nil => intro d h; exact h
+    | cons c cs ih =>
+      intro d h
+      exact ih _ (foldl_dictSet_nodup (fun p : ProtoArea => p.number) (fun p => p) c.protos d h)
+  exact this rd.cands [] List.nodup_nil
+
 end ASV.RegionExtract
